@@ -1446,3 +1446,16 @@ package objects
 //@   mode nopanic=off
 //@   ensures[set] sn.schedulable == schedulable
 //@   ensures[notified] ncalls(objects.Node.notifyListeners) == 1
+
+// a new child queue is registered under its own name and inherits the parent's child template: an unmanaged leaf gets the
+// template applied, a non-leaf without a template of its own carries the parent's template on (whatever kind of queue
+// the parent is), a leaf parent or a draining parent takes no children
+//@ func (sq *Queue) addChildQueue(child *Queue) (err error)
+//@   props C17
+//@   sweep
+//@   mode nopanic=off
+//@   at[applied] call objects.Queue.applyTemplate#1: assert arg0 == child && arg1 == old(sq).template && arg1 != nil
+//@   ensures[registered] err == nil ==> sq.children[child.Name] == child && !old(sq.isLeaf)
+//@   ensures[leaftemplate] err == nil && child.isLeaf && !child.isManaged && sq.template != nil ==> ncalls(objects.Queue.applyTemplate) == 1
+//@   ensures[carried] err == nil && !child.isLeaf && old(child.template) == nil ==> child.template == sq.template
+//@   ensures[kept] err == nil && !child.isLeaf && old(child.template) != nil ==> child.template == old(child.template)
